@@ -277,25 +277,40 @@ class AsyncPolicy:
         """Execute with retry and record result with breaker."""
         retry = self.retry
         assert retry is not None
-        outcome = await retry.execute(
-            func,
-            on_metric=on_metric,
-            on_log=on_log,
-            operation=operation,
-            abort_if=abort_if,
-            sleep=sleep,
-            before_sleep=before_sleep,
-            sleeper=sleeper,
-            on_attempt_start=on_attempt_start,
-            on_attempt_end=on_attempt_end,
-            capture_timeline=capture_timeline,
-        )
+        # Same ladder as call(): whatever escapes retry.execute() is reported to the breaker the way
+        # call() reports it, so both entry points leave the breaker in the same state.
+        try:
+            outcome = await retry.execute(
+                func,
+                on_metric=on_metric,
+                on_log=on_log,
+                operation=operation,
+                abort_if=abort_if,
+                sleep=sleep,
+                before_sleep=before_sleep,
+                sleeper=sleeper,
+                on_attempt_start=on_attempt_start,
+                on_attempt_end=on_attempt_end,
+                capture_timeline=capture_timeline,
+            )
+        except AbortRetryError as exc:
+            self._handle_abort_call(ctx, exc, on_attempt_end)
+            raise
+        except RetryExhaustedError as exc:
+            self._handle_exhausted_call(ctx, exc)
+            raise
+        except Exception as exc:
+            self._handle_exception_call(ctx, exc, on_attempt_end)
+            raise
 
         # Record with circuit breaker
         if ctx.breaker is not None:
             if outcome.ok:
                 record_success(ctx)
             elif outcome.stop_reason == StopReason.ABORTED:
+                record_cancel(ctx)
+            elif isinstance(outcome.last_exception, CircuitOpenError):
+                # A nested breaker's rejection is not this breaker's failure (as in call()).
                 record_cancel(ctx)
             else:
                 klass = outcome.last_class or ErrorClass.UNKNOWN
